@@ -435,8 +435,9 @@ print("RESULT" + json.dumps(out))
 '''
 
 
-def expected_pages():
+def expected_pages(root=None, exclude=("core",), with_index=True):
     """independent computation of the page set from the tree: documented law modules and packages"""
+    PKG = Path(root) if root is not None else globals()["PKG"]
     def has_title(path):
         try:
             doc = ast.get_docstring(ast.parse(path.read_text()))
@@ -455,7 +456,9 @@ def expected_pages():
     for dirpath, dirs, files in os.walk(PKG):
         p = Path(dirpath)
         rel = p.relative_to(PKG.parent)
-        if p.name.startswith(("_", ".")) or (p.relative_to(PKG).parts[:1] == ("core",)):
+        below = p.relative_to(PKG).parts
+        # excluded: the directories named by `exclude` directly under the root, with everything below them
+        if p.name.startswith(("_", ".")) or (below[:1] and below[0] in exclude):
             dirs[:] = []
             continue
         for f in files:
@@ -465,8 +468,49 @@ def expected_pages():
                 pages.add(".".join((rel / f).with_suffix("").parts[1:]) + ".rst")
         if (p / "__init__.py").exists() and has_title(p / "__init__.py"):
             pages.add(".".join(rel.parts[1:]) + ".rst")
-    pages.add("index.rst")
+    if with_index:
+        pages.add("index.rst")
     return pages
+
+
+SYNTHETIC_TREE = {
+    # path under the synthetic package -> has a title docstring
+    "__init__.py": True, "a.py": True, "nodoc.py": False,
+    "sub/__init__.py": True, "sub/b.py": True, "sub/internal/__init__.py": False, "sub/internal/ok.py": True,
+    "_drafts/__init__.py": True, "_drafts/wip.py": True, "_drafts/deep/__init__.py": True, "_drafts/deep/x.py": True,
+    "internal/__init__.py": True, "internal/top.py": True, "internal/deep/__init__.py": True, "internal/deep/y.py": True,
+    "internal/deep/deeper/__init__.py": True, "internal/deep/deeper/z.py": True,
+    ".hidden/__init__.py": True, ".hidden/h.py": True,
+    "zlast/__init__.py": True, "zlast/_private.py": True, "zlast/c.py": True,
+}
+SYNTHETIC_EXCLUDE = ["internal"]
+
+
+def synthetic_tree_pages():
+    """Bounded stand-in for the traversal of generate_laws_docs on OTHER trees than the pinned one: a synthetic package with
+    documented modules nested one and two levels below an excluded directory, a private directory and a hidden directory (and a
+    directory that merely shares the excluded directory's name).  returns (generated pages, expected pages, error)"""
+    import tempfile, shutil
+    root = Path(tempfile.mkdtemp(prefix="vf_c19_"))
+    try:
+        for rel, documented in SYNTHETIC_TREE.items():
+            f = root / "vfsyn" / rel
+            f.parent.mkdir(parents=True, exist_ok=True)
+            title = "Page " + rel.replace("/", " ").replace(".py", "").replace("_", " ").strip()
+            f.write_text(f'"""\n{title}\n{"=" * len(title)}\n\nSynthetic module.\n"""\n' if documented else "X = 1\n")
+        out = root / "out"
+        out.mkdir()
+        code = ("import os, sys\nos.chdir(sys.argv[1])\nsys.path.insert(0, sys.argv[2])\n"
+                "import symplyphysics.docs.build as B\n"
+                f"B.generate_laws_docs('vfsyn', 'out', {SYNTHETIC_EXCLUDE!r}, True)\n")
+        r = subprocess.run([sys.executable, "-c", code, str(root), str(REPO)], capture_output=True, text=True, timeout=300)
+        if r.returncode != 0:
+            return None, None, (r.stdout + r.stderr)[-1500:]
+        got = {str(p.relative_to(out)) for p in out.rglob("*.rst")}
+        exp = expected_pages(root / "vfsyn", tuple(SYNTHETIC_EXCLUDE), with_index=False)
+        return got, exp, ""
+    finally:
+        shutil.rmtree(root, ignore_errors=True)
 
 
 def clauses_of(res):
@@ -545,6 +589,24 @@ def run(report):
                                        f"holds, detail = next((ok, d) for n, ok, d in c19.clauses_of(res) if n == {name!r})\n"
                                        f"print({name!r}, 'holds' if holds else 'fails', detail[:600])\n"
                                        f"assert holds, 'C19 run-time postcondition {name} fails: ' + detail[:600]\n"}))
+    # (C2) the traversal on a synthetic tree (bounded: one tree)
+    sgot, sexp, serr = synthetic_tree_pages()
+    if sgot is None:
+        report.fault("synthetic documentation tree could not be generated: " + serr)
+    else:
+        sf = []
+        if sgot != sexp:
+            detail = (f"synthetic package (exclude {SYNTHETIC_EXCLUDE}): pages generated but not expected {sorted(sgot - sexp)}, "
+                      f"expected but missing {sorted(sexp - sgot)}")
+            sf.append({"name": f"{UNIT}/generate_laws_docs/synthetic-tree/one-page-per-documented-module-and-package-outside-excluded-and-private-directories",
+                       "detail": detail, "signature": "synthetic-tree",
+                       "replay": {"reproduced": True, "script": "from vf.props import c19\ngot, exp, err = c19.synthetic_tree_pages()\n"
+                                  "assert got is not None, err\nprint('generated', sorted(got))\nprint('expected ', sorted(exp))\n"
+                                  "assert got == exp, 'C19 synthetic tree: unexpected pages ' + repr(sorted(got - exp)) + ', missing ' + repr(sorted(exp - got))\n"}})
+        report.add_bounded("generate_laws_docs on a synthetic package: documented modules one to three levels below an excluded directory, a private "
+                           "directory and a hidden directory, a directory that shares the excluded directory's name elsewhere, private modules, "
+                           "undocumented modules and packages; page set equals the independently computed one",
+                           f"1 tree, {len(SYNTHETIC_TREE)} files, exclude list {SYNTHETIC_EXCLUDE}", len(SYNTHETIC_TREE), not sf, sf)
     report.extra["pages"] = len(got)
     report.extra["documented_modules_with_patch_precondition"] = nmods
     report.extra["members_checked"] = sum(len(v) for v in res["members"].values())
